@@ -323,7 +323,7 @@ Exp(res, addr, extra) ==
      nchunks |-> Len(chunks'), live |-> DOMAIN blocks', ma |-> ma', x |-> extra,
      fails |-> fails',                                                       \* injected failures so far
      nparts |-> Cardinality(parts'),                                         \* live split-off parts
-     inaligned |-> \E i \in 1..Len(frames') : frames'[i].kind \in {"aligned", "saligned", "bmws"},
+     inaligned |-> \E i \in 1..Len(frames') : frames'[i].kind \in {"aligned", "saligned", "bmws", "bvws"},
      inclaim |-> \E i \in 1..Len(frames') : frames'[i].kind = "claim",
      inprep |-> Len(frames') > 0 /\ frames'[Len(frames')].kind = "prep"]
 
@@ -332,7 +332,7 @@ ExpS(res, addr, extra, chs, c, liveset, frs, nparts) ==
     [res |-> res, addr |-> addr, cur |-> c, pos |-> IF c = 0 THEN 0 ELSE chs[c].pos,
      allocated |-> StatAllocated(chs, c), count |-> StatCount(chs, c), nchunks |-> Len(chs), live |-> liveset, ma |-> ma,
      x |-> extra, fails |-> fails, nparts |-> nparts,
-     inaligned |-> \E i \in 1..Len(frs) : frs[i].kind \in {"aligned", "saligned", "bmws"},
+     inaligned |-> \E i \in 1..Len(frs) : frs[i].kind \in {"aligned", "saligned", "bmws", "bvws"},
      inclaim |-> \E i \in 1..Len(frs) : frs[i].kind = "claim",
      inprep |-> FALSE]
 
@@ -1265,7 +1265,7 @@ Realloc(id, wrap) ==
                  exp |-> [res |-> "ok", addr |-> 0, cur |-> cur, pos |-> IF cur = 0 THEN 0 ELSE chs1[cur].pos,
                           allocated |-> StatAllocated(chs1, cur), count |-> StatCount(chs1, cur), nchunks |-> Len(chs1),
                           live |-> LiveIds \ {id}, ma |-> ma, fails |-> fails, nparts |-> Cardinality(parts \ {id}),
-                          inaligned |-> \E i \in 1..Len(frames) : frames[i].kind \in {"aligned", "saligned", "bmws"},
+                          inaligned |-> \E i \in 1..Len(frames) : frames[i].kind \in {"aligned", "saligned", "bmws", "bvws"},
                           inclaim |-> \E i \in 1..Len(frames) : frames[i].kind = "claim", inprep |-> FALSE,
                           x |-> [waslast |-> last = id, wastop |-> Top(order) = id,
                                  reclaim |-> ~WD(wrap) /\ cfg.dealloc /\ IsLast(chunks, cur, b.addr, b.sz),
@@ -1335,16 +1335,20 @@ EnterAligned(n, scoped) ==
 
 \* borrow_mut_with_settings::<NewS>() with a higher minimum alignment (lowering is rejected at compile time): the position
 \* is aligned like for aligned::<N>; nothing is undone when the borrow ends
-EnterBmws(n) ==
+\* byv: the same through an owned scope: by_value().with_settings::<NewS>() (BumpScope::with_settings; the arena must be allocated)
+EnterBmwsG(n, byv) ==
     /\ Active /\ Free /\ NoVecsHere /\ Depth < MaxDepth /\ n \in {2, 4, 8, 16} /\ n > ma
-    /\ frames' = Append(frames, [kind |-> "bmws", cp |-> Checkpoint, live |-> LiveIds, ma |-> ma, cps |-> cps,
+    /\ byv => cur # 0
+    /\ frames' = Append(frames, [kind |-> IF byv THEN "bvws" ELSE "bmws", cp |-> Checkpoint, live |-> LiveIds, ma |-> ma, cps |-> cps,
                                   alloc0 |-> StatAllocated(chunks, cur)])
     /\ cps' = <<>>
     /\ ma' = n
     /\ chunks' = IF cur # 0 THEN [chunks EXCEPT ![cur].pos = AlignPos(@, n)] ELSE chunks
     /\ last' = 0
     /\ UNCHANGED <<cfg, base, cur, blocks, nextId, order, parts, fails, dropped>>
-    /\ Step("enter", [kind |-> "bmws", n |-> n], Exp("ok", 0, NoX))
+    /\ Step("enter", [kind |-> IF byv THEN "bvws" ELSE "bmws", n |-> n], Exp("ok", 0, NoX))
+
+EnterBmws(n) == EnterBmwsG(n, FALSE)
 
 \* Bump::with_settings::<NewS>() (by value; only outside every frame): changes MIN_ALIGN and / or GUARANTEED_ALLOCATED.
 \* Requires an allocated arena when NewS is guaranteed-allocated: otherwise it panics and the Bump, which was moved into
@@ -1369,7 +1373,7 @@ WithSettings(n, g) ==
 ExitAligned(how) ==
     /\ Active /\ Free /\ NoVecsHere /\ Depth > 0
     /\ LET f == frames[Depth] IN
-       /\ f.kind \in {"aligned", "saligned", "bmws"}
+       /\ f.kind \in {"aligned", "saligned", "bmws", "bvws"}
        /\ IF f.kind = "saligned"
           THEN LET r == ResetToCp(chunks, f.cp)
                IN /\ Assert(StatAllocated(r.chunks, r.cur) = f.alloc0, "C18/C03: scoped_aligned does not restore the entry position")
@@ -1377,6 +1381,15 @@ ExitAligned(how) ==
                   /\ blocks' = Restrict(blocks, f.live)
                   /\ order' = SelectIds(order, f.live)
                   /\ parts' = parts \cap DOMAIN blocks'
+          ELSE IF f.kind = "bvws"
+          THEN \* the owned scope was a COPY of the handle (its own current-chunk pointer): when it is gone the handle is where it
+               \* was - in the chunk that was current at entry, whose position is wherever the copy left it - and everything
+               \* allocated through the copy has reached the end of its lifetime
+               /\ cur' = f.cp.chunk
+               /\ blocks' = Restrict(blocks, f.live)
+               /\ order' = SelectIds(order, f.live)
+               /\ parts' = parts \cap DOMAIN blocks'
+               /\ UNCHANGED chunks
           ELSE \* lowered alignment: the guard re-aligns the then-current chunk to the outer alignment
                /\ chunks' = IF ma < f.ma /\ cur # 0 THEN [chunks EXCEPT ![cur].pos = AlignPos(@, f.ma)] ELSE chunks
                /\ UNCHANGED <<cur, blocks, order, parts>>
